@@ -77,6 +77,7 @@ struct Session {
   SchedResult res;
   size_t replay_pos = 0;
   int spurious_left = 0;
+  int timeouts_left = 0;
   std::unordered_map<const void *, int> mtx_id, cv_id;
   std::unordered_map<const void *, std::vector<uint32_t>> atom_vc;   // synchronisation carried by std::atomic objects
   std::vector<std::vector<uint32_t>> mtx_vc;
@@ -298,7 +299,8 @@ static ThreadRec *choose(bool cur_runnable, bool fair = false) {
       S.res.decisions.push_back(-(t->id) - 2);
       cand.push_back(t);
     }
-    if (!timedw.empty() && S.rng.chance(0.1)) {
+    if (!timedw.empty() && S.timeouts_left > 0 && S.rng.chance(0.1)) {
+      S.timeouts_left--;
       ThreadRec *t = timedw[S.rng.below(timedw.size())];
       fire_timeout(t);
       S.res.decisions.push_back(-(t->id) - 1000);
@@ -699,6 +701,7 @@ void session_begin(const SchedConfig &cfg) {
   S.res = SchedResult();
   S.replay_pos = 0;
   S.spurious_left = cfg.max_spurious;
+  S.timeouts_left = cfg.max_timeouts;
   S.mtx_id.clear(); S.cv_id.clear(); S.mtx_vc.clear(); S.obj_hash.clear(); S.atom_vc.clear();
   g_shadow.clear();
   next_mtx_id = 0; next_cv_id = 0;
